@@ -72,9 +72,11 @@ type write struct {
 type fnSummary struct {
 	W      tagset                  // memory it may write (own-parameter terms)
 	WLoc   map[string][]types.Type // tag -> types of the objects written through it (nil entry = unknown)
-	R      tagset                  // origin of returned references ("F" = fresh)
+	R      tagset                  // origin of returned references ("F" = fresh), all result positions together
 	Rc     tagset                  // what is reachable from the returned references
-	S      map[int]tagset          // parameter j -> references it may store into memory reachable from parameter j
+	Ri     map[int]tagset          // the same per result position
+	Rci    map[int]tagset
+	S      map[int]tagset // parameter j -> references it may store into memory reachable from parameter j
 	Writes []write
 }
 
@@ -634,6 +636,18 @@ func (oc *originCtx) originOfTuple(v ssa.Value, idx int, contents bool) tagset {
 		if contents {
 			src = s.Rc
 		}
+		if idx >= 0 {
+			// one position of a result tuple: an error returned next to a fresh slice does not taint the slice
+			src = s.Ri[idx]
+			if contents {
+				src = s.Rci[idx]
+			}
+		} else if g.Signature.Results().Len() == 1 {
+			src = s.Ri[0]
+			if contents {
+				src = s.Rci[0]
+			}
+		}
 		for t := range src {
 			oc.e.mapTag(t, c, g, oc, res)
 		}
@@ -1052,9 +1066,15 @@ func (e *effects) analyse(fn *ssa.Function, s *fnSummary) bool {
 				}
 			}
 		case *ssa.Return:
-			for _, rv := range x.Results {
+			for ri, rv := range x.Results {
 				if !isRefType(rv.Type()) {
 					continue
+				}
+				if s.Ri == nil {
+					s.Ri, s.Rci = map[int]tagset{}, map[int]tagset{}
+				}
+				if s.Ri[ri] == nil {
+					s.Ri[ri], s.Rci[ri] = tagset{}, tagset{}
 				}
 				for t := range oc.origin(rv) {
 					if t == "L" {
@@ -1064,6 +1084,10 @@ func (e *effects) analyse(fn *ssa.Function, s *fnSummary) bool {
 						s.R[t] = true
 						changed = true
 					}
+					if !s.Ri[ri][t] {
+						s.Ri[ri][t] = true
+						changed = true
+					}
 				}
 				for t := range oc.reachFrom(rv) {
 					if t == "L" {
@@ -1071,6 +1095,10 @@ func (e *effects) analyse(fn *ssa.Function, s *fnSummary) bool {
 					}
 					if !s.Rc[t] {
 						s.Rc[t] = true
+						changed = true
+					}
+					if !s.Rci[ri][t] {
+						s.Rci[ri][t] = true
 						changed = true
 					}
 				}
